@@ -8,6 +8,8 @@ pub const HASH: u8 = 1;
 pub const EQ: u8 = 2;
 pub const CLONE: u8 = 4;
 pub const CLOSURE: u8 = 8;
+/// a value's destructor (fault driver only; never fires while already unwinding)
+pub const DROP: u8 = 16;
 
 thread_local! {
     static NEXT_ID: Cell<u64> = const { Cell::new(1) };
@@ -260,6 +262,16 @@ impl Drop for Val {
     fn drop(&mut self) {
         died(self.id);
         *self.canary = 0;
+        if FUSE_KINDS.with(|k| k.get()) & DROP != 0 && !std::thread::panicking() {
+            let f = FUSE.with(|f| f.get());
+            if f == 0 {
+                FUSE.with(|f| f.set(-1));
+                FIRED.with(|f| f.set(true));
+                panic!("injected (destructor)");
+            } else if f > 0 {
+                FUSE.with(|x| x.set(f - 1));
+            }
+        }
     }
 }
 impl Clone for Val {
